@@ -70,16 +70,24 @@ PROPS["C07"] = dict(
 )
 PROPS["C09"] = dict(
     title="The namespace directive moves every namespaced resource and nothing else",
-    modules=["Kust.Props.C09"],
+    modules=["Kust.Props.C09", "Kust.Props.C09b"],
     theorems=["Kust.C09.ns_total", "Kust.C09.ns_empty_noop", "Kust.C09.ns_outermost_wins", "Kust.C09.ns_collision_is_error",
-              "Kust.C09.scope_table_sane", "Kust.C09.scope_table_expected"],
-    components=["res.layers", "res.append"],
+              "Kust.C09.scope_table_sane", "Kust.C09.scope_table_expected",
+              "Kust.C09.subject_named_default_moves", "Kust.C09.subject_not_default_untouched", "Kust.C09.service_account_subject_moves",
+              "Kust.C09.other_kind_subject_untouched", "Kust.C09.no_subjects_mode_noop", "Kust.C09.roleBindingHack_frame",
+              "Kust.C09.cluster_scoped_meta_untouched", "Kust.C09.cluster_scoped_untouched", "Kust.C09.meta_namespace_moves",
+              "Kust.C09.run_is_meta_pass", "Kust.C09.dropMeta_no_meta_namespace", "Kust.C09.unset_only_keeps",
+              "Kust.C09.setNamespaceField_moves"],
+    components=["res.layers", "res.append", "ns.filter"],
     oracle=True,
     n_corr={"quick": 3000, "thorough": 30000}, n_oracle={"quick": 500, "thorough": 5000},
     technique="Lean 4 proof (namespace step, outermost-wins induction over layers, collision re-check invariant, decide over regenerated scope table) + plugin correspondence + per-resource oracle on whole builds",
     level_text="Theorems for every layer chain and resource: a not-cluster-scoped resource ends in the outermost directive's namespace, a cluster-scoped one is "
-               "untouched, a successful transformer run leaves pairwise distinct ids (collisions are errors). Subjects of role bindings are checked by the oracle.",
-    level_note=COMMON_NOTE + "roleBindingHack / nameref subject fixing are oracle-only.",
+               "untouched, a successful transformer run leaves pairwise distinct ids (collisions are errors). On resource trees (model NsFilter of "
+               "api/filters/namespace, tied by ns.filter): metadata.namespace is created/overwritten for namespaced resources and nothing else changes, "
+               "cluster-scoped ones are returned as they came, and the role-binding subject pass moves exactly the designated subjects of the mode "
+               "(named default / every ServiceAccount / none), element by element, touching no other field.",
+    level_note=COMMON_NOTE + "nameref subject fixing (which account a subject designates) is C03's model plus the oracle.",
     assumptions=["IsCertainlyClusterScoped is a parameter cs (regenerated table checked by decide)"],
     design_ref="DESIGN.md §5 C09",
 )
@@ -254,8 +262,8 @@ PROPS["C10"] = dict(
 PROPS["C01"] = dict(
     title="A build is a deterministic, history-independent function of its inputs",
     facts=True,
-    modules=["Kust.Props.C01"],
-    theorems=["Kust.C01.C01_history", "Kust.C01.observeAll_default", "Kust.C01.history_reach", "Kust.C01.set_nondefault_fresh",
+    modules=["Kust.Props.C01", "Kust.Props.C16"],
+    theorems=["Kust.C16.globals_reviewed", "Kust.C16.globals_byref_reviewed", "Kust.C01.C01_history", "Kust.C01.observeAll_default", "Kust.C01.history_reach", "Kust.C01.set_nondefault_fresh",
               "Kust.C01.Witness.old_custom_schema_leaks", "Kust.C01.sortStrs_perm", "Kust.C01.insertStr_comm",
               "Kust.C01.C01_map_sites_covered", "Kust.C01.map_sites_all_reviewed"],
     components=["openapi.seq"],
@@ -264,7 +272,8 @@ PROPS["C01"] = dict(
     technique="Lean 4 proof (history independence of the OpenAPI schema state machine for every history; permutation invariance of the sorted-key iteration; decide over the SSA-regenerated list of map-range sites) + Go/Lean correspondence of the schema state on op sequences + repetition/history/fresh-process oracle on whole builds",
     level_text="Theorem C01_history: for ANY sequence of earlier builds (any selections incl. custom schemas and unknown versions, any schema operations) a build observes "
                "exactly what it observes in a fresh process — for the repaired SetSchema; the old code is refuted by a kernel-evaluated witness. Sorted-key iteration is "
-               "permutation-invariant; the regenerated list of range-over-map sites in the build closure equals the reviewed list. PARTIAL: process-level repetition "
+               "permutation-invariant; the regenerated list of range-over-map sites in the build closure equals the reviewed list, and so do the lists of package-level "
+               "variables written, or handed by reference to a call, outside init (the state space of the model is all the process-wide state there is). PARTIAL: process-level repetition "
                "and Go's map randomisation are covered by these theorems plus the reviewed site list and a bounded repetition search, not by a semantics of the Go runtime.",
     level_note=COMMON_NOTE + "The schema is abstracted to its source (built-in / custom n); RTA over-approximates interface calls; the per-site order-independence arguments are review tags, only the sorted-key pattern is proved.",
     assumptions=["exactly one built-in OpenAPI version (as in the tree)", "Go map iteration is some permutation"],
@@ -274,7 +283,7 @@ PROPS["C16"] = dict(
     title="Independent builds may run concurrently without interfering",
     facts=True, race=True,
     modules=["Kust.Props.C16"],
-    theorems=["Kust.Sync.lockset_drf", "Kust.Sync.step_inv", "Kust.C16.globals_reviewed", "Kust.C16.access_table_disciplined",
+    theorems=["Kust.Sync.lockset_drf", "Kust.Sync.step_inv", "Kust.C16.globals_reviewed", "Kust.C16.globals_byref_reviewed", "Kust.C16.access_table_disciplined",
               "Kust.C16.schema_accesses_present", "Kust.C16.concurrent_builds_race_free", "Kust.C16.default_view_confluent"],
     components=["openapi.seq"],
     oracle=True,
